@@ -223,3 +223,77 @@ Print Assumptions C13_input_scaling.
 Print Assumptions C13_ring_line_shape.
 Print Assumptions C13_degree_exact.
 Print Assumptions C13_degree_dense_entries.
+
+(* ------------------------------------------------------------------ tie (T): the definitions GENERATED from mat_gen.py *)
+(* coq/gen/Gen_matgen.v is re-translated from the current text of reservoirpy/mat_gen.py by tools/vlib/py2coq_mg.py on every run
+   (`pregen`); the generated functions are the hand-written model the theorems above are stated about.  V is any type of Python
+   values, pynone its None (`None is None` is the only hypothesis), F any Num instance. *)
+From RV Require Import base.MGPrelude gen.Gen_matgen proofs.Gen_matgen_eq.
+
+(* Initializer.__call__ (authorisation checks, deprecated aliases through the pinned primitive, deep copy + dict.update, the
+   seed=None keep rule, dispatch on shape / kwargs) and Initializer._func_post_process (sr xor input_scaling) *)
+Theorem C13_generated_call_is_model (V : Type) (is_none : V -> bool) (pynone : V) (self : initializer V) (shape : list V)
+        (kw : kwargs V) :
+  is_none pynone = true ->
+  GenMatGen.mg_call V is_none pynone self shape kw = call is_none self shape kw.
+Proof. intros Hn. exact (gen_call_eq V is_none pynone Hn self shape kw). Qed.
+
+Theorem C13_generated_func_post_process_is_model (V : Type) (is_none : V -> bool) (pynone : V) (i : initializer V)
+        (shape : list V) (kw : kwargs V) :
+  is_none pynone = true ->
+  GenMatGen.mg_func_post_process V is_none pynone i shape kw = post_process is_none (with_kwargs i kw) shape.
+Proof. intros Hn. exact (gen_func_post_process_eq V is_none pynone Hn i shape kw). Qed.
+
+(* _scale_spectral_radius: one draw with the same seed (None when absent) and the remaining keyword arguments, its radius asked
+   once from the oracle, then MatGen.scale_sr at the module constant _epsilon *)
+Theorem C13_generated_scale_spectral_radius_is_model (V : Type) (pynone : V) {F : Type} `{Num F} (rho : list (list F) -> F)
+        (w_init : list V -> kwargs V -> list (list F)) (shape : list V) (sr : F) (kw : kwargs V) :
+  GenMatGen.mg_scale_spectral_radius V pynone rho w_init shape sr kw
+  = let W0 := w_init shape (("seed"%string, kw_get_d pynone "seed"%string kw) :: kw_del "seed"%string kw) in
+    scale_sr GenMatGen.mg_epsilon W0 (rho W0) sr.
+Proof. exact (gen_scale_spectral_radius_eq V pynone rho w_init shape sr kw). Qed.
+
+(* ... hence, over R with a homogeneous radius: a draw whose radius is at least _epsilon comes back as the positive multiple
+   (sr / rho) of the same-seed draw and has radius sr; a draw with a null radius comes back as drawn *)
+Theorem C13_generated_sr_request (V : Type) (pynone : V) (rho : list (list R) -> R)
+        (rho_hom : forall (c : R) (W : list (list R)), rho (mscale c W) = (Rabs c * rho W)%R)
+        (w_init : list V -> kwargs V -> list (list R)) (shape : list V) (sr : R) (kw : kwargs V) :
+  let W0 := w_init shape (("seed"%string, kw_get_d pynone "seed"%string kw) :: kw_del "seed"%string kw) in
+  let W := GenMatGen.mg_scale_spectral_radius V pynone rho w_init shape sr kw in
+  ((GenMatGen.mg_epsilon <= rho W0)%R -> (0 < sr)%R -> W = mscale (sr / rho W0)%R W0 /\ (0 < sr / rho W0)%R /\ rho W = sr) /\
+  ((- GenMatGen.mg_epsilon < rho W0 < GenMatGen.mg_epsilon)%R -> W = W0).
+Proof. exact (gen_sr_request V pynone rho rho_hom w_init shape sr kw). Qed.
+
+(* _scale_inputs: whatever scipy.sparse.issparse answers (both branches denote the same matrix), a scalar factor multiplies every
+   entry and a vector of factors multiplies column j by s_j *)
+Theorem C13_generated_scale_inputs_is_model (V : Type) {F : Type} `{Num F} (issparse : list (list F) -> bool)
+        (w_init : list V -> kwargs V -> list (list F)) (shape : list V) (kw : kwargs V) :
+  (forall s : F, GenMatGen.mg_scale_inputs_scalar V issparse w_init shape s kw = scale_inputs_scalar s (w_init shape kw)) /\
+  (forall s : list F, GenMatGen.mg_scale_inputs_cols V issparse w_init shape s kw = scale_inputs_cols s (w_init shape kw)).
+Proof. split; intros s; [exact (gen_scale_inputs_scalar_eq V issparse w_init shape s kw)|exact (gen_scale_inputs_cols_eq V issparse w_init shape s kw)]. Qed.
+
+(* _ring / _line: which (row, col) entries are set; weights=None means ones; a shape that is not (units, units) is refused *)
+Theorem C13_generated_ring_line_is_model {F : Type} `{Num F} (n : nat) (w : list F) :
+  (GenMatGen.mg_ring [n; n] (Some w) = Some (ring n w) /\ GenMatGen.mg_ring [n; n] None = Some (ring n (vones n))) /\
+  (GenMatGen.mg_line [n; n] (Some w) = Some (line n w) /\ GenMatGen.mg_line [n; n] None = Some (line n (vones (n - 1)))).
+Proof. split; [exact (gen_ring_eq n w)|exact (gen_line_eq n w)]. Qed.
+
+Theorem C13_generated_ring_line_reject {F : Type} `{Num F} (shape : list nat) (w : option (list F)) :
+  length shape <> 2 \/ nth 0 shape 0 <> nth 1 shape 0 ->
+  GenMatGen.mg_ring shape w = None /\ GenMatGen.mg_line shape w = None.
+Proof. exact (gen_ring_line_reject shape w). Qed.
+
+(* the generated code runs: ring(3, 3) with the default weights at Q, and uniform(seed=3)(sr=2)(4, 4) through the generated __call__ *)
+Example C13_generated_example :
+  GenMatGen.mg_ring (F:=Q) [3; 3] None = Some [[0; 0; 1]; [1; 0; 0]; [0; 1; 0]]%Q /\
+  GenMatGen.mg_call (option nat) ex_none None (mkInit 7 [("seed", Some 3)]%string true true true) [Some 4; Some 4] [("sr", Some 2)]%string
+   = RMat (mkDesc 7 [Some 4; Some 4] (PSr (Some 2)) [("seed", Some 3)]%string).
+Proof. vm_compute. split; reflexivity. Qed.
+
+Print Assumptions C13_generated_call_is_model.
+Print Assumptions C13_generated_func_post_process_is_model.
+Print Assumptions C13_generated_scale_spectral_radius_is_model.
+Print Assumptions C13_generated_sr_request.
+Print Assumptions C13_generated_scale_inputs_is_model.
+Print Assumptions C13_generated_ring_line_is_model.
+Print Assumptions C13_generated_ring_line_reject.
